@@ -288,6 +288,19 @@ func battery() string {
 	fs := mxj.MapSeq{"r": map[string]interface{}{"#attr": map[string]interface{}{"a": map[string]interface{}{"#text": "<", "#seq": 0}}, "e": map[string]interface{}{"#seq": 0, "#text": ""}}}
 	sx, err := fs.Xml()
 	fmt.Fprintf(&sb, "SX:%s|%v\n", sx, err)
+	// element names that would be reserved keys under another key prefix are ordinary elements
+	fs2 := mxj.MapSeq{"doc": map[string]interface{}{
+		"_comment":   map[string]interface{}{"#text": "keep", "#seq": 0},
+		"$directive": map[string]interface{}{"#text": "x", "#seq": 1},
+		"%comment":   map[string]interface{}{"#text": "y", "#seq": 2},
+		"_attr":      map[string]interface{}{"#text": "z", "#seq": 3},
+		"!procinst":  map[string]interface{}{"#text": "w", "#seq": 4},
+		"~text":      map[string]interface{}{"#text": "v", "#seq": 5}}}
+	sx2, err := fs2.Xml()
+	fmt.Fprintf(&sb, "SX2:%s|%v\n", sx2, err)
+	fm2 := mxj.Map{"doc": map[string]interface{}{"_text": "a", "$text": "b", "@x": "c", "attr_y": "d", "_seq": "e"}}
+	mx2, err := fm2.Xml()
+	fmt.Fprintf(&sb, "MX2:%s|%v\n", mx2, err)
 	lp := fixed.LeafPaths()
 	sort.Strings(lp)
 	var ln []string
@@ -346,7 +359,10 @@ func sanitize(v interface{}) interface{} {
 // neither prefixes, separators, escaping nor casting apply); it must never change.
 func indepBattery() string {
 	var sb strings.Builder
-	m := mxj.Map{"r": map[string]interface{}{"l": []interface{}{map[string]interface{}{"b": "x", "c": "y"}, map[string]interface{}{"b": "z"}}, "q": map[string]interface{}{"b": "w"}, "t": "v"}}
+	m := mxj.Map{"r": map[string]interface{}{"l": []interface{}{map[string]interface{}{"b": "x", "c": "y"}, map[string]interface{}{"b": "z"}}, "q": map[string]interface{}{"b": "w"}, "t": "v",
+		"Up-Per": map[string]interface{}{"Key_A": []interface{}{"u1", map[string]interface{}{"In-Ner": "u2"}}}}}
+	up, err := m.ValuesForPath("r.Up-Per.Key_A.In-Ner")
+	fmt.Fprintf(&sb, "UP:%v|%v|%v|%d\n", up, err, sortedCanon(mustVals(m.ValuesForKey("In-Ner"))), len(m.PathsForKey("Key_A")))
 	n, err := m.NewMap("r.l:x.y", "r.q.b:z", "r.t")
 	fmt.Fprintf(&sb, "NM:%s|%v\n", canon(map[string]interface{}(n)), err)
 	p := m.PathsForKey("b")
@@ -379,6 +395,8 @@ func indepBattery() string {
 	fmt.Fprintf(&sb, "SI:%s\n", si)
 	return sb.String()
 }
+
+func mustVals(v []interface{}, _ error) []interface{} { return v }
 
 var (
 	baseOnce    sync.Once
